@@ -72,6 +72,11 @@ theorem freelist_no_mark_no_parked (c : Cfg) (hc : GoodCfg c) (ops : List Op)
       | stats => rfl
       | get k => rfl
       | owner a => rfl
+      | reserve k a =>
+        simp only [step]; unfold reserve; split
+        · split <;> try rfl
+          split <;> rfl
+        · split <;> rfl
   have hp := marked_nil_parked_nil hI (by rw [hmk _ _ hm]; rfl)
   refine ⟨hp, ?_⟩
   have := hI.perm
@@ -152,6 +157,47 @@ theorem freelist_releaseVal_returns (c : Cfg) (hc : GoodCfg c) (ops : List Op) (
       simp only [hl, if_true]
       rw [hnew]
       cases hav : s.avail <;> simp
+
+/-- Reserve (dhcp.Pool) neither leaks nor duplicates: a REFUSED Reserve changes nothing at all (in
+    particular the key's current address is not put on the free list while the key still holds it); a
+    successful one that moves the key puts the previous address back on the free list. -/
+theorem freelist_reserve_conserves (c : Cfg) (hc : GoodCfg c) (ops : List Op) (k a : Nat) :
+    let s := run (init c) ops
+    ((reserve s k a).2 = .bool false → (reserve s k a).1 = s) ∧
+    (∀ cur, s.held.lookup k = some cur → cur ≠ a → (reserve s k a).2 = .bool true →
+        cur ∈ (reserve s k a).1.avail ∧ ∀ k', (reserve s k a).1.held.lookup k' ≠ some cur) := by
+  have hI := reachable_inv c hc ops
+  generalize run (init c) ops = s at *
+  have hI' := inv_reserve hI k a
+  show ((reserve s k a).2 = .bool false → (reserve s k a).1 = s) ∧
+    (∀ cur, s.held.lookup k = some cur → cur ≠ a → (reserve s k a).2 = .bool true →
+        cur ∈ (reserve s k a).1.avail ∧ ∀ k', (reserve s k a).1.held.lookup k' ≠ some cur)
+  constructor
+  · intro h
+    unfold reserve at h ⊢
+    split
+    · rename_i cur hcur
+      simp only [hcur] at h
+      split
+      · rfl
+      · rename_i hne
+        simp only [hne, if_false] at h
+        split
+        · rename_i ha; simp [ha] at h
+        · rfl
+    · rename_i hnone
+      simp only [hnone] at h
+      split
+      · rename_i ha; simp [ha] at h
+      · rfl
+  · intro cur hcur hne hok
+    have hmem : cur ∈ (reserve s k a).1.avail := by
+      unfold reserve at hok ⊢
+      simp only [hcur, hne, if_false] at hok ⊢
+      split
+      · simp
+      · rename_i ha; simp [ha] at hok
+    exact ⟨hmem, fun k' => hI'.avail_not_held hmem k'⟩
 
 /-- The figures Stats() reports are the true ones after any history: Allocated is the number of keys
     holding a value, Available the length of the free list, and Total = Allocated + Available is the
